@@ -753,7 +753,7 @@ fn sanitizer_replays(ctx: &Ctx, rep: &Report, sample: Vec<Vec<u8>>, rng: &mut Rn
         let mut inputs: Vec<Vec<u8>> = compressed.clone();
         inputs.extend(sample.iter().cloned());
         let cases = mk_cases(&inputs);
-        let l = Launcher { program: asan_bin, pre_args: vec![], env: vec![("ASAN_OPTIONS".into(), "halt_on_error=1:abort_on_error=1:detect_leaks=1:allocator_may_return_null=1".into())] };
+        let l = Launcher { program: asan_bin, pre_args: vec![], env: vec![("ASAN_OPTIONS".into(), "halt_on_error=1:abort_on_error=1:detect_leaks=1:allocator_may_return_null=1".into()), ("VERIF_NO_RLIMIT".into(), "1".into())] };
         let outs = run_cases_with(&l, "c04z", &[], &cases, ctx.threads, Duration::from_secs(120));
         judge_outcomes("asan", &["AddressSanitizer", "LeakSanitizer"], &cases, outs);
     } else {
